@@ -297,15 +297,27 @@ Proof.
   destruct (fst ne =? k) eqn:E; [|reflexivity]. apply N.eqb_eq in E. tauto.
 Qed.
 
-Theorem xget_spec_map : forall l n e,
-  NoDup (map fst l) -> In (n, e) l -> xget (spec_map l) n = entry_meaning e.
+Lemma xget_fold_spec : forall l m n e,
+  NoDup (map fst l) -> In (n, e) l ->
+  xget (fold_left spec_step l m) n = match entry_meaning e with Some x => Some x | None => xget m n end.
 Proof.
-  unfold spec_map. intros l. generalize (@nil (N * xentry)).
   induction l as [|ne l IH]; intros m n e Hnd Hin; [contradiction|].
   cbn [map] in Hnd. inversion Hnd; subst. cbn [fold_left]. destruct Hin as [->|Hin].
   - cbn [fst] in *. rewrite xget_spec_map_absent by assumption. rewrite xget_spec_step. cbn [fst snd].
-    rewrite N.eqb_refl. destruct (entry_meaning e) eqn:E; [reflexivity|].
-    (* free entry: the number must not have been in m -- only claimed for the empty start below *)
-    admit.
-  - apply IH; assumption.
-Abort.
+    rewrite N.eqb_refl. destruct (entry_meaning e); reflexivity.
+  - rewrite (IH _ n e) by assumption. destruct (entry_meaning e); [reflexivity|].
+    rewrite xget_spec_step. destruct (entry_meaning (snd ne)); [|reflexivity].
+    destruct (fst ne =? n) eqn:E; [|reflexivity]. apply N.eqb_eq in E.
+    exfalso. apply H1. rewrite E. change n with (fst (n, e)). apply in_map. exact Hin.
+Qed.
+
+(* with pairwise distinct object numbers the table answers exactly what the sections say *)
+Theorem xget_spec_map : forall l n e,
+  NoDup (map fst l) -> In (n, e) l -> xget (spec_map l) n = entry_meaning e.
+Proof.
+  intros l n e Hnd Hin. unfold spec_map. rewrite (xget_fold_spec l [] n e Hnd Hin).
+  destruct (entry_meaning e); reflexivity.
+Qed.
+
+Theorem xget_spec_map_none : forall l n, ~ In n (map fst l) -> xget (spec_map l) n = None.
+Proof. intros l n H. unfold spec_map. rewrite xget_spec_map_absent by exact H. reflexivity. Qed.
